@@ -5,6 +5,8 @@ CONSTANTS
   MaxOps = 4
   NB = 12
   MaxMicro = 80
+  MaxOpsOne = 0
+  LockChoices <- NoTops
   Bodies <- B
   SendVals <- SendQuick
   TopChoices <- AllTops
